@@ -35,6 +35,8 @@ type HistGen struct {
 	WithConfirm bool
 	// Pause (seconds) is added to the timestamp of the next block built (retarget mode only)
 	Pause uint32
+	// mined: the transfers HonestBlock has put into blocks of this history (a branch may mine them again)
+	mined []interfaces.Transaction
 }
 
 func (h *HistGen) nextNonce() uint64 { h.nonce++; return h.nonce + 1<<32 }
@@ -45,6 +47,7 @@ func (h *HistGen) Start() {
 	h.Emit("%s", h.S.InitLine())
 	h.Active = &Branch{}
 	h.Watch = nil
+	h.mined = nil
 }
 
 // spendable lists the coins of the branch an honest transfer may use at the next height.
@@ -221,6 +224,53 @@ func (h *HistGen) HonestBlock(br *Branch, maxTx int) *types.Block {
 	for k := h.R.Intn(maxTx + 1); k > 0; k-- {
 		if tx := h.Transfer(br, used); tx != nil {
 			txs = append(txs, tx)
+		}
+	}
+	// the same transaction mined on both sides of a fork: a transfer already mined in another block of this
+	// history whose inputs are all unspent (and mature) on this branch goes in again
+	if len(h.mined) > 0 && h.R.Chance(45) {
+		onBr := map[string]bool{}
+		for _, b := range br.Blocks {
+			for _, tx := range b.Transactions {
+				onBr[ID(tx.Hash())] = true
+			}
+		}
+		avail := map[string]bool{}
+		for _, c := range h.spendable(br) {
+			avail[fmt.Sprintf("%s:%d", c.ID, c.Idx)] = true
+		}
+		for try := 0; try < 4; try++ {
+			tx := h.mined[h.R.Intn(len(h.mined))]
+			if onBr[ID(tx.Hash())] {
+				continue
+			}
+			ok := true
+			for _, in := range tx.Inputs() {
+				k := fmt.Sprintf("%s:%d", ID(in.Previous.TxID), in.Previous.Index)
+				if !avail[k] || used[k] {
+					ok = false
+				}
+			}
+			if !ok {
+				continue
+			}
+			for _, in := range tx.Inputs() {
+				used[fmt.Sprintf("%s:%d", ID(in.Previous.TxID), in.Previous.Index)] = true
+			}
+			onBr[ID(tx.Hash())] = true
+			txs = append(txs, tx)
+			break
+		}
+	}
+	for _, tx := range txs {
+		known := false
+		for _, m := range h.mined {
+			if m.Hash() == tx.Hash() {
+				known = true
+			}
+		}
+		if !known {
+			h.mined = append(h.mined, tx)
 		}
 	}
 	return h.Block(br, txs)
